@@ -58,7 +58,9 @@ Expected(p, par) == RMul(ELut(par.lut, p), Norm(par.qr * par.vr, par.wr * par.wr
 
 MCLattice == {-1, 0, 1, 2, 3, 4, 5, 7}
 VARIABLES batch, par
-Params == [wr : Ratios, qr : Ratios, vr : Ratios, lut : Luts]
+\* axis: the table's first column is the area (scales with wr^2) or the
+\* volume (scales with wr^3) of the event
+Params == [wr : Ratios, qr : Ratios, vr : Ratios, lut : Luts, axis : {"area", "volume"}]
 Init == /\ batch \in UNION {[1..k -> Lattice \X Lattice] : k \in 1..MaxBatch}
         /\ par \in Params
 Next == UNCHANGED <<batch, par>>
